@@ -28,9 +28,9 @@ m = {
     "setup_cmd": SETUP,
     "hooks": {
         "guard": "cfg(kani) (set by the Kani compiler for every crate it builds; never set by cargo build/test)",
-        "enable": "cargo kani in /verif/harness compiles /repo's working tree as a path dependency with --cfg kani; hooks: pset::verif_hooks (accessors for the crate-private map merge functions) and blech32::decode::CheckedHrpstring::verif_from_parts (constructor from split parts)",
+        "enable": "cargo kani in /verif/harness compiles /repo's working tree as a path dependency with --cfg kani; hooks: pset::verif_hooks (accessors for the crate-private map merge functions) blech32::decode::CheckedHrpstring::verif_from_parts (constructor from split parts) and Address::verif_from_base58 (private payload parser)",
         "baseline_off_cmd": "cd /repo && cargo test --workspace --no-fail-fast --offline",
-        "source_commits": ["cb5a50d", "2524795"],
+        "source_commits": ["cb5a50d", "2524795", "fa46036"],
         "add_only": True,
     },
     "engines": [
